@@ -367,8 +367,86 @@ def b_signature(tier):
     return b
 
 
+def b_importer_subclasses(tier):
+    """An application subclass of the importer / exporter with one overridden handler, used before and after the stock class: the stock class is unaffected."""
+    import pymbolic.primitives as p
+    from pymbolic.interop.ast import ASTToPymbolic, PymbolicToASTMapper, to_python_ast
+    from pymbolic.mapper.evaluator import EvaluationMapper
+    b = BoundedRun("importer-subclass-histories", rule="subclasses of ASTToPymbolic overriding map_BinOp (reads ^ as power), map_Name (renames), map_Constant (doubles) and a subclass of "
+                   "PymbolicToASTMapper overriding map_sum, each used once on the same node types; before and afterwards the stock importer / exporter gives, for 12 expressions, a tree "
+                   "/ an AST evaluating to the evaluator's value", bound="4 subclasses x 2 orders x 12 expressions x 3 environments", functions=["ASTMapper.rec", "ASTToPymbolic.map_*", "PymbolicToASTMapper"])
+    x, y, z = (p.Variable(n) for n in "xyz")
+    exprs = [p.BitwiseXor((x, y)), p.Sum((x, p.Product((y, 3)))), p.Power(x, 2), p.BitwiseXor((p.Sum((x, 1)), z)), p.Quotient(x, p.Sum((y, 5))), p.Product((2, x, y)), p.Sum((x, 7)),
+             p.FloorDiv(x, 3), p.RightShift(p.Sum((x, 8)), 1), p.LeftShift(x, 2), p.BitwiseOr((x, p.BitwiseAnd((y, z)))), p.Remainder(p.Sum((x, y)), 4)]
+    envs_ = [dict(x=2, y=10, z=3), dict(x=5, y=1, z=7), dict(x=-3, y=4, z=2)]
+
+    class PowImporter(ASTToPymbolic):
+        def map_BinOp(self, expr):      # noqa: N802
+            if isinstance(expr.op, ast.BitXor):
+                return p.Power(self.rec(expr.left), self.rec(expr.right))
+            return super().map_BinOp(expr)
+
+    class RenamingImporter(ASTToPymbolic):
+        def map_Name(self, expr):       # noqa: N802
+            return p.Variable(expr.id + "_renamed")
+
+    class DoublingImporter(ASTToPymbolic):
+        def map_Constant(self, expr):   # noqa: N802
+            return 2 * expr.value
+
+    class OddExporter(PymbolicToASTMapper):
+        def map_sum(self, expr):
+            return ast.Constant(0)
+
+    def stock_ok():
+        bad = []
+        for e in exprs:
+            tree = to_python_ast(e)
+            back = outcome.run(lambda: ASTToPymbolic()(tree))
+            for env in envs_:
+                want = outcome.run(lambda: EvaluationMapper(env)(e))
+                got = outcome.run(lambda: EvaluationMapper(env)(back[1])) if back[0] == "val" else back
+                got2 = outcome.run(lambda: eval(compile(ast.fix_missing_locations(ast.Expression(to_python_ast(e))), "<c13>", "eval"), {}, dict(env)))     # noqa: S307
+                if want[0] == "val" and (got != want or got2 != want):
+                    bad.append((e, env, want, got, got2))
+                    break
+        return bad
+    users = [("PowImporter", lambda: [PowImporter()(to_python_ast(e)) for e in exprs]), ("RenamingImporter", lambda: [RenamingImporter()(to_python_ast(e)) for e in exprs]),
+             ("DoublingImporter", lambda: [DoublingImporter()(to_python_ast(e)) for e in exprs]), ("OddExporter", lambda: [OddExporter()(e) for e in exprs])]
+    def subclass_ok(uname):
+        """The overriding handler is the one that runs for instances of the subclass (whatever the stock class did before)."""
+        if uname == "PowImporter":
+            r = outcome.run(lambda: PowImporter()(to_python_ast(p.BitwiseXor((x, y)))))
+            return r == ("val", p.Power(x, y)), r
+        if uname == "RenamingImporter":
+            r = outcome.run(lambda: RenamingImporter()(to_python_ast(p.Sum((x, 7)))))
+            return r == ("val", p.Sum((p.Variable("x_renamed"), 7))), r
+        if uname == "DoublingImporter":
+            r = outcome.run(lambda: DoublingImporter()(to_python_ast(p.Sum((x, 7)))))
+            return r == ("val", p.Sum((x, 14))), r
+        r = outcome.run(lambda: ast.unparse(OddExporter()(p.Product((2, p.Sum((x, 7)))))))
+        return r == ("val", "2 * 0"), r
+    for uname, use in users:
+        for order in ("subclass-first", "stock-first"):
+            if order == "stock-first":
+                stock_ok()
+            outcome.run(use)
+            sub_good, sub_r = subclass_ok(uname)
+            b.case((uname, order, "subclass"), nontrivial=True)
+            if not sub_good:
+                b.fail(Failure("importer-subclass-histories", f"subclass={uname} order={order} what=override-not-used", dict(kind="imp-hist-sub", subclass=uname, order=order), expected="the overriding handler's result",
+                               actual=outcome.describe(sub_r)[:150], functions=["ASTMapper.rec"]))
+            bad = stock_ok()
+            b.case((uname, order), nontrivial=True, sample=dict(subclass=uname, order=order))
+            if bad:
+                e, env, want, got, got2 = bad[0]
+                b.fail(Failure("importer-subclass-histories", f"subclass={uname} order={order} expr={e!r}", dict(kind="imp-hist", subclass=uname, order=order, expr=repr(e)), expected=outcome.describe(want)[:80],
+                               actual=f"import: {outcome.describe(got)[:80]} export: {outcome.describe(got2)[:80]}", functions=["ASTMapper.rec"]))
+    return b
+
+
 def bounded(tier, seed, procs):
-    return [b_programs(tier, seed), b_signature(tier)]
+    return [b_programs(tier, seed), b_signature(tier), b_importer_subclasses(tier)]
 
 
 def proof_jobs(tier):
